@@ -5,18 +5,18 @@ ID = "C17"
 FUNCTIONS = ["helpers.lru_variations", "helpers.https_variation", "Traph.expand_prefix", "Traph.add_page"]
 REQUIRED = ["variations:first-is-input", "variations:distinct", "variations:foreign-change", "variations:closed",
             "reach:hosts0", "reach:hosts2", "reach:www-last", "reach:path-stem"]
-OUTSIDE = ["more than 3 host stems, host payloads other than 1 or 3 bytes, path payloads longer than 8 bytes",
+OUTSIDE = ["more than 3 host stems, host payloads other than 1, 3, 4 (thorough: 5) bytes, path payloads longer than 8 bytes",
            "port stems other than t:80", "LRUs whose host stems are not contiguous or that end in two h:www stems (excluded by the statement)"]
 
 
 def levels(tier):
     if tier == "quick":
         return [
-            {"name": "shape", "mode": "pure", "hosts": [0, 1, 2], "hostL": [1, 3], "paths": [[], [6]], "port": [0, 1]},
+            {"name": "shape", "mode": "pure", "hosts": [0, 1, 2, 3], "hostL": [1, 3, 4], "paths": [[], [6]], "port": [0, 1]},
             {"name": "auto", "mode": "auto", "hosts": [2], "hostL": [1], "paths": [[], [1]], "port": [0], "rules": ["domain"]},
         ]
     return [
-        {"name": "shape", "mode": "pure", "hosts": [0, 1, 2, 3], "hostL": [1, 3], "paths": [[], [6], [7], [1, 6]], "port": [0, 1]},
+        {"name": "shape", "mode": "pure", "hosts": [0, 1, 2, 3], "hostL": [1, 3, 4, 5], "paths": [[], [6], [7], [1, 6]], "port": [0, 1]},
         {"name": "long-path", "mode": "pure", "hosts": [1, 2], "hostL": [3], "paths": [[8], [6, 6], [2, 7]], "port": [0]},
         {"name": "auto", "mode": "auto", "hosts": [1, 2, 3], "hostL": [1, 3], "paths": [[], [1], [6]], "port": [0, 1],
          "rules": ["domain", "subdomain", "path1"]},
